@@ -36,7 +36,7 @@ func init() {
 		Assumptions: commonAssumptions})
 	describe(&PropertyDoc{ID: "C04",
 		Explanation: "Structural necessary conditions of the URL-record invariants in every reachable state.",
-		Decides:     []string{"default-port elision follows every store of a new port and every scheme change under an override (PAIR-port)", "the 'cannot have credentials/port' and opaque-path guards are shared by sibling setters (PAIR-guards)", "component sets and forbidden sets are at least the standard's (TAB-super, TAB-forbidden ⊇), default ports are the standard's (TAB-schemes)"},
+		Decides:     []string{"default-port elision follows every store of a new port and every scheme change under an override (PAIR-port)", "the 'cannot have credentials/port' and opaque-path guards are shared by sibling setters (PAIR-guards)", "component sets and forbidden sets are at least the standard's (TAB-super, TAB-forbidden ⊇), default ports are the standard's (TAB-schemes)", "the package-level default scheme table is read only by the options initialiser: default-port elision uses the parser's own table (OPT-schemetable)"},
 		NotDecided:  []string{"getter-composition identities", "value-level invariants (scheme grammar, ASCII-only serialisation)"},
 		Assumptions: commonAssumptions})
 	describe(&PropertyDoc{ID: "C05",
@@ -46,7 +46,7 @@ func init() {
 		Assumptions: append([]string{"/verif/spec/setters.json transcribes the API setters of the standard"}, commonAssumptions...)})
 	describe(&PropertyDoc{ID: "C06",
 		Explanation: "Structural facts behind the resolution laws.",
-		Decides:     []string{"the three resolution routes pass identical arguments into one algorithm, on the receiver's own parser (FLOW-funnel)", "'#f' against an opaque base inherits exactly scheme, path, query and is the only accepted relative form; '?q', '#f', empty inherit exactly the listed components; a scheme-less reference always takes the base's scheme (SM-inherit / SM-failpoints rows)"},
+		Decides:     []string{"the three resolution routes pass identical arguments into one algorithm, on the receiver's own parser (FLOW-funnel)", "'#f' against an opaque base inherits exactly scheme, path, query and is the only accepted relative form; '?q', '#f', empty inherit exactly the listed components; a scheme-less reference always takes the base's scheme (SM-inherit / SM-failpoints rows)", "every URL a resolution route hands out is the result of the one algorithm: no path bypasses it (FLOW-funnel, must-pass-through)"},
 		NotDecided:  []string{"that the serialization of u resolves to u (C03 plus value behaviour)"},
 		Assumptions: commonAssumptions})
 	describe(&PropertyDoc{ID: "C07",
@@ -61,12 +61,12 @@ func init() {
 		Assumptions: commonAssumptions})
 	describe(&PropertyDoc{ID: "C09",
 		Explanation: "Order and coverage of the domain pipeline.",
-		Decides:     []string{"percent-decoding precedes ToASCII; the forbidden-domain scan runs over the ToASCII result on every non-lax success path and before the IPv4 test (FLOW-hostpipe)", "the forbidden-domain set is at least the standard's (TAB-forbidden)"},
+		Decides:     []string{"percent-decoding precedes ToASCII; the forbidden-domain scan runs over the ToASCII result on every non-lax success path and before the IPv4 test (FLOW-hostpipe)", "the forbidden-domain set is at least the standard's (TAB-forbidden)", "every IDNA conversion goes through the module's lookup profile built with MapForLookup (FLOW-idna)"},
 		NotDecided:  []string{"UTS #46 behaviour, case independence, the localhost rule"},
 		Assumptions: commonAssumptions})
 	describe(&PropertyDoc{ID: "C10",
 		Explanation: "Set-level clauses decided completely; string-level codec laws are not.",
-		Decides:     []string{"membership of the six named sets for all 0x110000 code points equals the standard's; byte and rune predicates agree (TAB-sets)", "default option sets are the standard's (TAB-defaults)", "deriving a set returns a fresh set and never writes its parent (EFF-derive, TAB-ctor)", "named sets and bitsets are never written after initialisation (EFF-globals)", "escapes use upper-case hex in every function that writes a '%' (TAB-hex)", "the rune copy of a string is never indexed by a byte offset of that string (FLOW-units)"},
+		Decides:     []string{"membership of the six named sets for all 0x110000 code points equals the standard's; byte and rune predicates agree (TAB-sets)", "default option sets are the standard's (TAB-defaults)", "deriving a set returns a fresh set and never writes its parent (EFF-derive, TAB-ctor)", "named sets and bitsets are never written after initialisation (EFF-globals)", "escapes use upper-case hex in every function that writes a '%' (TAB-hex)", "the rune copy of a string is never indexed by a byte offset of that string (FLOW-units)", "in every encoder nothing reaches the result unencoded except under the set's own answer for that value; sub-encoders get the same set or a Set()-superset (FLOW-encgate)"},
 		NotDecided:  []string{"string-level laws (idempotence, decode∘encode) beyond the encoder gating on the set predicate"},
 		Assumptions: commonAssumptions})
 	describe(&PropertyDoc{ID: "C11",
@@ -96,7 +96,7 @@ func init() {
 		Assumptions: commonAssumptions})
 	describe(&PropertyDoc{ID: "C16",
 		Explanation: "Option wiring: which option reaches which consumer under which trigger.",
-		Decides:     []string{"each With* constructor stores exactly its own field; constructors ↔ fields is a bijection (OPT-bij)", "NewParser / canonicalizer.New apply every option to a fresh object (OPT-apply)", "each option field is read only at its reviewed consumers (OPT-consumers)", "post-processing is exactly the unconditional setter call under exactly its flag (OPT-canon); default-scheme retry is guarded by missing-scheme ∧ scheme set (OPT-retry)", "profile and parser agree on parameter special cases (OPT-sibling); defaults are the standard's (TAB-defaults)"},
+		Decides:     []string{"each With* constructor stores exactly its own field; constructors ↔ fields is a bijection (OPT-bij)", "NewParser / canonicalizer.New apply every option to a fresh object (OPT-apply)", "each option field is read only at its reviewed consumers (OPT-consumers)", "post-processing is exactly the unconditional setter call under exactly its flag (OPT-canon); default-scheme retry is guarded by missing-scheme ∧ scheme set (OPT-retry)", "profile and parser agree on parameter special cases (OPT-sibling); defaults are the standard's (TAB-defaults)", "only the options initialiser reads the package-level scheme table (OPT-schemetable)"},
 		NotDecided:  []string{"conservative-extension claims that need value reasoning (collapsing //., literal U+FFFD vs invalid bytes)"},
 		Assumptions: commonAssumptions})
 	describe(&PropertyDoc{ID: "C18",
@@ -111,7 +111,7 @@ func init() {
 		Assumptions: commonAssumptions})
 	describe(&PropertyDoc{ID: "C20",
 		Explanation: "Absence of the two super-linear mechanisms the anchors name, in module code.",
-		Decides:     []string{"no string accumulated by concatenation around an input-dependent loop (COST-concat)", "no O(n) copy inside such a loop; O(remaining-input) cursor helpers only on paths that leave their state (COST-copy, SM-onevisit)"},
+		Decides:     []string{"no string accumulated by concatenation around an input-dependent loop (COST-concat)", "no O(n) copy inside such a loop; O(remaining-input) cursor helpers only on paths that leave their state (COST-copy, SM-onevisit)", "functions that walk a URL component (path, parameter list, serialisation) are called in the state machine only on paths that leave the state (SM-onevisit)"},
 		NotDecided:  []string{"the overall bound (amortised re-scans after rewind, allocation volume, cost inside dependencies such as IDNA)"},
 		Assumptions: commonAssumptions})
 }
